@@ -51,6 +51,7 @@ affected unit tests; before delivering run `/verif/tools/baseline.py /tmp/wt/{pi
 Export the fix commits with `git -C /tmp/wt/{pid} format-patch -o /verif/fixes/{pid} <base>..HEAD` (base = the commit
 your worktree started from). Put the known_findings.json entries you need (both "fixed" and "finding") in a file
 /verif/fixes/{pid}/known_findings_entries.json (a JSON list; "fixed" entries use "commit": "PENDING").
+IMPORTANT: fix commits must touch files under pipefunc/ only (the test-suite leaves a my_run_folder/ directory in the worktree: never `git add -A`; `rm -rf` it).
 Your check must pass (exit 0, no VIOLATION line) on your worktree WITH your fixes applied, and must report a VIOLATION
 with a concrete replay on the worktree WITHOUT each fix (try it: `git stash`/checkout the base in a second worktree) —
 that is the evidence that the check detects that class of breakage.
